@@ -13,6 +13,9 @@
 //                  NOT part of the model driver's protocol (drv_pool answers bad-op): the expectation is the closed
 //                  form `(calls so far + i) mod n` of the Python oracle / of theorem C05.pool_round_robin.  Meant for
 //                  call counts around 2^31 and 2^32, where a cursor of the wrong width or a free-running one shows.
+//   selfquit <i> -> selfquit <i> gone   the io loop with callback index i quits itself; answered when its EventLoop object
+//                  has been destroyed.  NOT part of the model driver's protocol (oracle only): the pool is destroyed
+//                  later with one of its loops already gone, which must touch nothing that is dead.
 //   anything else, or a query before the first `start` -> bad-op
 //
 // A loop is named independently of getAllLoops()/loops_: by the order in which the ThreadInitCallback
@@ -24,6 +27,8 @@
 #include "muduo/net/EventLoop.h"
 #include "muduo/base/Logging.h"
 #include "muduo/base/Mutex.h"
+#include "muduo/base/CountDownLatch.h"
+#include <unistd.h>
 #include "common.h"
 #include <errno.h>
 #include <memory>
@@ -154,6 +159,24 @@ int main() {
       printf("loop %s\n--\n", nameOf(&base, pool->getLoopForHash(static_cast<size_t>(v))).c_str());
     } else if (op == "spin" && w.size() == 2 && pool && parseU64(w[1], &v) && v <= kMaxSpin) {
       spin(&base, pool.get(), v);
+    } else if (op == "selfquit" && w.size() == 2 && pool && parseU64(w[1], &v)) {
+      // the io loop with callback index v ends ON ITS OWN (a task on it calls quit()); returns when that EventLoop object
+      // has been destroyed (its context, destroyed with it, counts a latch down).  NOT part of the model driver's
+      // protocol.  What follows (`start`, end of input) destroys a pool one of whose loops is already gone.
+      EventLoop* l = NULL;
+      {
+        muduo::MutexLockGuard lock(g_mutex);
+        if (v < g_seen.size() && g_seen[v] != &base) l = g_seen[v];
+      }
+      if (!l) { bad(); fflush(stdout); continue; }
+      struct Note { muduo::CountDownLatch* latch; explicit Note(muduo::CountDownLatch* x) : latch(x) {} ~Note() { latch->countDown(); } };
+      muduo::CountDownLatch gone(1);
+      std::shared_ptr<Note> note(new Note(&gone));
+      l->runInLoop([l, note] { l->setContext(note); l->quit(); });
+      note.reset();
+      gone.wait();
+      usleep(20000);        // let threadFunc() finish: the thread has returned from loop() and the EventLoop is destroyed
+      printf("selfquit %llu gone\n--\n", v);
     } else if (op == "all" && w.size() == 1 && pool) {
       std::vector<EventLoop*> ls = pool->getAllLoops();
       printf("all");
